@@ -167,6 +167,18 @@ def h_nested(ctx, variant, scenario='honest'):
             if variant in (2, 3, 5):
                 aa = prune(a, 1)
         b = SC(ORD, ctx.bitstr('b', 4), [cc, dd])
+        if variant in (6, 7):
+            # the inner Merkle cell's body already holds a level-1 pruned branch of its own (as a block's state update does);
+            # the outer proof prunes a sibling below it one level higher: an ordinary cell over masks 0b01 and 0b10
+            g = SC(ORD, ctx.bitstr('g', 8), [])
+            own = prune(g, 1)
+            cc2 = prune(c, 2) if proof_form else c
+            b = SC(ORD, ctx.bitstr('b', 4), [own, cc2, dd])
+            if variant == 6:
+                inner = merkle_proof(warm(b))
+            else:
+                inner = merkle_update(warm(b), warm(SC(ORD, ctx.bitstr('b2', 6), [prune(SC(ORD, ctx.bitstr('g2', 3), []), 1)])))
+            return warm(SC(ORD, ctx.bitstr('root', 6), [aa, inner]))
         if variant < 5:
             inner = merkle_proof(warm(b))
         else:
@@ -542,7 +554,7 @@ def instances(tier, seed):
     for sc in ('honest', 'other_account', 'pruned_carrier'):
         yield 'h_account', dict(n_acc=2, which=1, scenario=sc, extra_cur=True)
         yield 'h_account', dict(n_acc=1, which=0, scenario=sc, extra_cur=True)
-    for variant in range(6):
+    for variant in range(8):
         for sc in ('honest', 'other_hash', 'mutated'):
             yield 'h_nested', dict(variant=variant, scenario=sc)
     for shape, n_leaves in (('leaf', 1), (['leaf', 'leaf'], 2), ([['leaf', 'leaf'], 'leaf'], 3)):
